@@ -1668,10 +1668,20 @@ impl<T: PPGEvaluatorStrategy> PPGEvaluator<T> {
                             .to_string(),
                     ));
                 }
-                JobState::Output(JobStateOutput::NotReady(vs))
-                | JobState::Ephemeral(JobStateEphemeral::NotReady(vs)) => match vs {
+                JobState::Output(JobStateOutput::NotReady(vs)) => match vs {
                     ValidationStatus::Unknown | ValidationStatus::Invalidated => return Ok(false),
                     ValidationStatus::Validated => {}
+                },
+                JobState::Ephemeral(JobStateEphemeral::NotReady(vs)) => match vs {
+                    ValidationStatus::Unknown | ValidationStatus::Invalidated => return Ok(false),
+                    ValidationStatus::Validated => {
+                        // a validated ephemeral consumer may still become required by *its*
+                        // consumers - and then it needs our output.
+                        match Self::downstream_requirement_status(dag, jobs, downstream_idx)? {
+                            Required::No => {}
+                            Required::Yes | Required::Unknown => return Ok(false),
+                        }
+                    }
                 },
                 JobState::Output(JobStateOutput::FinishedUpstreamFailure)
                 | JobState::Ephemeral(JobStateEphemeral::FinishedUpstreamFailure)
